@@ -54,7 +54,8 @@ def items(tier, seed):
     L = 2 if tier == 'quick' else 3
     for delim in (0, 1):
         for ln in range(1, L + 1):
-            out.append({'h': 'body', 'delim': delim, 'L': ln, 'cost': 30 ** ln, 'budget': 600})
+            out.append({'h': 'body', 'delim': delim, 'L': ln, 'cost': 30 ** ln,
+                        'budget': 600 if ln < 3 else 3000})
     n = 3 if tier == 'quick' else 4
     for first in range(len(ATOMS)):
         out.append({'h': 'atoms', 'first': first, 'n': n, 'cost': 20})
